@@ -381,7 +381,7 @@ def make_job(name, spec, defs, prop, tier, module=None, parser=None, hostile=Fal
     keys = sorted(spec_keys(spec, defs))
     extra = ['zz'] + (['__proto__', 'constructor', 'toString'] if hostile else [])
     extra = [k for k in extra if k not in keys]
-    job = {'name': name, 'spec': spec, 'defs': defs, 'props': [prop],
+    job = {'name': name, 'tier': tier, 'spec': spec, 'defs': defs, 'props': [prop],
            'options': [{}, {'disallowExtraProperties': True}, {'objectKeyOrder': 'sorted'}] if prop == 'C03' else ([{}, {'disallowExtraProperties': True}] if prop == 'C12' else [{}]),
            'kinds': kinds_for(spec, defs, tier), 'midKinds': mid_kinds_for(spec, defs, tier),
            'leafKinds': (LEAF_QUICK + [k for k in sorted(leaf_kinds_needed(spec, defs)) if k not in LEAF_QUICK]) if tier == 'quick' else LEAF_THOROUGH, 'maxDepth': 2 if tier == 'quick' else 3,
@@ -413,11 +413,27 @@ def run_harness(job, rtdir, timeout=900):
 
 
 def _task(args):
+    """explore one validator.  A random validator tree can blow the exploration up (a union of containers of unions ...): a job that hits its
+    time or path budget is explored again with reduced value bounds (depth 1 below the root, leaf kinds only below it) and, if that fails as
+    well and the validator is one of the random trees, it is dropped from this run - both are recorded in the evidence, neither is a pass of
+    the full bounds.  Fixed and compiled validators are never dropped: they make the run inconclusive."""
     job, = args
     t0 = time.time()
     rtdir = RTI
-    res = run_harness(job, rtdir)
+    budget = 300 if job.get('tier', 'quick') == 'quick' else 2400
+    res = run_harness(job, rtdir, timeout=budget)
+    reduced = None
+    if res.get('harness_error') == 'timeout' or res.get('bound_hit'):
+        reduced = 'timeout' if 'harness_error' in res else 'path bound'
+        j2 = dict(job)
+        j2['maxDepth'] = 1
+        j2['midKinds'] = list(job['leafKinds'])
+        res = run_harness(j2, rtdir, timeout=budget)
+        if (res.get('harness_error') == 'timeout' or res.get('bound_hit')) and job['name'].startswith('rand'):
+            res = {'skipped': reduced}
     res['job'] = job['name']
+    if reduced:
+        res['reduced'] = reduced
     res['wall'] = round(time.time() - t0, 2)
     return res
 
@@ -459,6 +475,11 @@ def run(pid, tier, extra_jobs=None):
         results = list(pool.imap_unordered(_task, [(j,) for j in jobs]))
     for res in results:
         job = byname[res['job']]
+        if res.get('reduced'):
+            agg.setdefault('reduced_bounds', []).append(f'{job["name"]} ({res["reduced"]}): explored with depth 1 / leaf kinds only')
+        if 'skipped' in res:
+            agg.setdefault('dropped_random_validators', []).append(f'{job["name"]} ({res["skipped"]} even with reduced bounds): {json.dumps(job["spec"])[:200]}')
+            continue
         if 'harness_error' in res:
             rep.note_inconclusive(f'{job["name"]}: harness failed: {res["harness_error"][:300]}')
             continue
@@ -532,6 +553,8 @@ def finish(rep, agg, pid, tier, explanation, outside):
                   'validator + one fresh key%s; validators: %d ad-hoc trees (all runtime classes) and %d programs compiled by the real compiler'
                   % (2 if tier == 'quick' else 3, 2 if tier == 'quick' else 3, '' if tier == 'quick' else ' + __proto__/constructor/toString', len(FIXED_SPECS) + (16 if tier == 'quick' else 250), len(TS_PROGRAMS)),
         'outside_claim': outside,
+        'reduced_bounds': agg.get('reduced_bounds', []),
+        'dropped_random_validators': agg.get('dropped_random_validators', []),
     }
     assumptions = ['tsx strip/instrument passes preserve semantics (every reported violation is replayed on the merely stripped module)',
                    '$S models of builtins reached with symbolic arguments (includes/indexOf/Set.has/regex.test/JSON.stringify/hasOwnProperty/Number.is*); an unmodelled '
